@@ -138,6 +138,9 @@ fn main() {
         (r####"r##"a "# b"##"####, "a \"# b"),
         (r###"r#"max = 99, min = 50"#"###, "max = 99, min = 50"),
         (r###"r#"say "max = 99""#"###, "say \"max = 99\""),
+        // a source file with CR LF line endings: the compiler reads the line break inside a literal as LF
+        ("r\"line1\r\nline2\"", "line1\nline2"),
+        ("\"line1\r\nline2\"", "line1\nline2"),
     ];
     for (lit, value) in &spellings {
         for form in ["length (min = 1 , message = {M} , max = 7)", "length (message = {M} , min = 1 , max = 7)", "length (min = 1 , max = 7 , message = {M})"] {
